@@ -597,7 +597,7 @@ impl Formatter {
                 self.format_type(&return_type.node);
             }
             Type::SelfType => self.writer.write("Self"),
-            Type::Unit => self.writer.write("None"),
+            Type::Unit => self.writer.write("()"),
         }
     }
 
